@@ -581,7 +581,8 @@ func vtsPolyBottom(s *valueTypeStack) bool {
 //@   modifies s.stackLimits
 
 // ---- C03: block types. Both compilers and the validator decode a block's type with DecodeBlockType and
-// then index Params / Results of what it returns without a nil check.
+// then index Params / Results of what it returns without a nil check. A case contract: verified on its own, not
+// used at call sites (the callers' cases keep executing the body), so its preconditions bind no caller.
 func brOK(r *bytes.Reader) bool {
 	return r != nil && 0 <= verif_field_int(r, "i") && verif_field_int(r, "i") <= verif_field_len(r, "s")
 }
@@ -599,7 +600,7 @@ func shorthandBlockTypesSet() bool {
 }
 
 //@ prop C03
-//@ func DecodeBlockType(types []FunctionType, r *bytes.Reader, enabledFeatures api.CoreFeatures) (*FunctionType, uint64, error)
+//@ case shape DecodeBlockType(types []FunctionType, r *bytes.Reader, enabledFeatures api.CoreFeatures) (*FunctionType, uint64, error)
 //@   requires brOK(r) && shorthandBlockTypesSet()
 //@   ensures[type-or-error-never-both-nil] (r2 == nil) == (r0 != nil)
 //@   ensures[a-shorthand-or-an-entry-of-the-type-section] r2 == nil ==> isShorthandBlockType(r0) || (enabledFeatures&api.CoreFeatureMultiValue != 0 && exists k int :: 0 <= k && k < len(types) && r0 == &types[k])
